@@ -30,6 +30,7 @@ def first_accepting(pts, cfg, tables):
     return n, list(range(n)), ties
 
 
+@core.safe_case
 def one(ctx, which, pts, cfg, family):
     import kneeliverse.rdp as rdp
     res = rdpfam.run_case(ctx, which, pts, cfg, family)
